@@ -9,6 +9,8 @@
   the reference semantics of generated documents.
 -/
 import YalafiVerif.Model.Tex2txt
+import YalafiVerif.Proofs.Inv.Tex2txt
+import YalafiVerif.Generated.WF
 namespace Yalafi
 
 /-- what `addUnknown` does to the state -/
@@ -53,5 +55,16 @@ theorem C19_addUnknown_prefix (name : Str) (math : Bool) (st st' : PState)
   split
   · exact List.prefix_refl _
   · exact List.prefix_append _ _
+
+/-- end to end on the whole filter model (bundle invariant `G0.unk`): the unknowns list of every
+    result is duplicate-free, for every source, option record, file system and fuel -/
+theorem C19_tex2txt_nodup (T : PTables) (hw : T.WFInv) (fuel : Nat) (latex : Str) (o : Options) (multi : Bool)
+    (thresh : Nat) (fs : FS) (r : T2TResult) (h : tex2txt T fuel latex o multi thresh fs = .ok r) :
+    r.unknowns.Nodup :=
+  tex2txt_unknowns_nodup T hw fuel latex o multi thresh fs r h
+
+theorem C19_tex2txt_nodup_current (fuel : Nat) (latex : Str) (o : Options) (multi : Bool) (thresh : Nat) (fs : FS)
+    (r : T2TResult) (h : tex2txt Generated.theTables fuel latex o multi thresh fs = .ok r) : r.unknowns.Nodup :=
+  tex2txt_unknowns_nodup Generated.theTables Generated.wfInv fuel latex o multi thresh fs r h
 
 end Yalafi
